@@ -11,7 +11,7 @@ namespace etl::chrono {
 /// \ingroup chrono
 template <typename ToDuration, typename Clock, typename Duration>
     requires(detail::is_duration_v<ToDuration>)
-[[nodiscard]] constexpr auto time_point_cast(time_point<Clock, Duration> const& tp) -> ToDuration
+[[nodiscard]] constexpr auto time_point_cast(time_point<Clock, Duration> const& tp) -> time_point<Clock, ToDuration>
 {
     using time_point_t = time_point<Clock, ToDuration>;
     return time_point_t(duration_cast<ToDuration>(tp.time_since_epoch()));
